@@ -1,144 +1,50 @@
 """Family `balance`: C01, C02, C09 — spec/Balance.tla, monitor spec/BalanceTrace.tla, driver harness/balance."""
-import collections
-import json
-import os
-import time
-
 import vcheck as V
 
-PROPS = ("C01", "C02", "C09")
-LEVEL = "model_checking"
 
-ASSUME = [
-    "neo-go v0.107.0 compiler/VM/ledger/neotest are faithful to the production platform (transaction atomicity on FAULT, witness checks)",
-    "the harness maps model values injectively to real script hashes/amounts; amounts are scaled by U in {1,1e12,2^64,2^200} and must divide exactly",
-    "Alphabet-only methods receive 20-byte addresses and lock targets are fresh addresses (quantifier of the property)",
-    "TLC 1.8.0 evaluates the property predicates correctly on the recorded steps",
-]
+class Balance(V.Family):
+    name = "balance"
+    props = ("C01", "C02", "C09")
+    driver_pkg = "balance"
+    monitor = ("BalanceTrace.tla", "BalanceTrace.cfg")
+    step_keys = ("act", "S", "a", "b", "amt", "x")
+    assume = [
+        "neo-go v0.107.0 compiler/VM/ledger/neotest are faithful to the production platform (transaction atomicity on FAULT, witness checks)",
+        "the harness maps model values injectively to real script hashes/amounts; amounts are scaled by U in {1,1e12,2^64,2^200} and must divide exactly",
+        "Alphabet-only methods receive 20-byte addresses and lock targets are fresh addresses (quantifier of the property)",
+        "TLC 1.8.0 evaluates the property predicates correctly on the recorded steps",
+    ]
+    rule = ("one evaluation = one transaction executed on the real Balance contract and judged by the TLA+ monitor; "
+            "distinct_nontrivial counts distinct (action,outcome,return,signer class,amount class,address kinds,#notifications,"
+            "state changed) tuples among steps that changed state or were refused for a reason other than a missing Alphabet witness")
+    tiers = {
+        "quick": dict(mc=[("BalanceMC.tla", "Balance_quick.cfg")], mc_timeout=600,
+                      sim=("BalanceMC.tla", "Balance_sim.cfg", 60, 25), sim_keep=150, nrand=150, shards=4),
+        "thorough": dict(mc=[("BalanceMC.tla", "Balance_thorough.cfg")], mc_timeout=3000,
+                         sim=("BalanceMC.tla", "Balance_sim.cfg", 1500, 25), sim_keep=4000, nrand=6000, shards=14),
+    }
 
-TIERS = {
-    "quick": dict(mc_cfg="Balance_quick.cfg", sim_num=60, sim_keep=150, nrand=150, shards=4, mc_timeout=600),
-    "thorough": dict(mc_cfg="Balance_thorough.cfg", sim_num=1500, sim_keep=4000, nrand=6000, shards=14, mc_timeout=3000),
-}
+    def nontrivial_key(self, r, prev):
+        changed = prev is not None and (r["obs"]["acc"] != prev["obs"]["acc"] or r["obs"]["supply"] != prev["obs"]["supply"])
+        S = set(r["S"])
+        sc = "alpha" if "ALPHA" in S else ("holder" if r["a"] in S else ("other" if S else "none"))
+        if not changed and r["res"] == "FAULT" and sc != "alpha" and r["act"] not in ("transfer", "transferVia"):
+            return None
+        amt = r["amt"]
+        ac = "neg" if amt < 0 else "zero" if amt == 0 else "pos"
+        if prev is not None and r["a"] in prev["obs"]["api"]:
+            b = prev["obs"]["api"][r["a"]]
+            if amt == b:
+                ac += "=bal"
+            elif amt > b:
+                ac += ">bal"
+        kind = lambda a: a[0] if a[0] in "ul" else a
+        return (r["act"], r["res"], r["ret"], sc, ac, kind(r["a"]), kind(r["b"]), len(r["ntf"]), changed)
 
-
-def nontrivial_key(r, prev):
-    """A step is non-trivial if it changed the state or was refused for a reason other than the missing Alphabet
-    witness; distinct = distinct (action, outcome, signer class, amount class, address class)."""
-    changed = prev is not None and (r["obs"]["acc"] != prev["obs"]["acc"] or r["obs"]["supply"] != prev["obs"]["supply"])
-    S = set(r["S"])
-    sc = "alpha" if "ALPHA" in S else ("holder" if r["a"] in S else ("other" if S else "none"))
-    if not changed and r["res"] == "FAULT" and sc != "alpha" and r["act"] not in ("transfer", "transferVia"):
-        return None
-    amt = r["amt"]
-    ac = "neg" if amt < 0 else "zero" if amt == 0 else "pos"
-    if prev is not None and r["a"] in prev["obs"]["api"]:
-        b = prev["obs"]["api"][r["a"]]
-        if amt == b:
-            ac += "=bal"
-        elif amt > b:
-            ac += ">bal"
-    kind = lambda a: a[0] if a[0] in "ul" else a
-    return (r["act"], r["res"], r["ret"], sc, ac, kind(r["a"]), kind(r["b"]), len(r["ntf"]), changed)
+    def extra_coverage(self, trace_all, flags_all):
+        return dict(committee_sizes=sorted(set(r["n"] for r in trace_all if r["act"] == "reset")),
+                    scales=sorted(set(r["scale"] for r in trace_all if r["act"] == "reset")))
 
 
 def run(pid, tier, seed, replay=None):
-    t0 = time.time()
-    cfg = TIERS[tier]
-    known = V.known_findings()
-    # ---- S1
-    if replay is None:
-        mc = V.tlc_modelcheck("BalanceMC.tla", cfg["mc_cfg"], timeout=cfg["mc_timeout"], workers=min(V.NCPU, 12))
-        V.log("S1 %s: %d distinct states, %d generated, %.0fs" % (cfg["mc_cfg"], mc["states"], mc["transitions"], mc["wall_s"]))
-        # ---- S2
-        scs, dt = V.tlc_simulate("BalanceMC.tla", "Balance_sim.cfg", cfg["sim_num"], 25, seed)
-        # every printed history is a behaviour of the Spec; keep a seeded sample, all distinct
-        uniq = {json.dumps(s["steps"], sort_keys=True): s for s in scs}
-        keys = sorted(uniq)
-        import random
-        random.Random(seed).shuffle(keys)
-        scs = [dict(steps=[{k: st[k] for k in ("act", "S", "a", "b", "amt", "x")} for st in uniq[k]["steps"]]) for k in keys[:cfg["sim_keep"]]]
-        V.log("S2: %d TLC-generated scenarios (%.0fs)" % (len(scs), dt))
-        nrand = cfg["nrand"]
-    else:
-        mc = None
-        rp = json.load(open(replay))
-        scs = [rp["scenario"]]
-        nrand = 0
-    scen_path = os.path.join(V.scratch(), "scenarios.json")
-    json.dump(scs, open(scen_path, "w"))
-    # ---- S3
-    binary, dt = V.go_build_test("balance")
-    V.log("driver built from %s working tree (%.0fs)" % (V.REPO, dt))
-    nsh = 1 if replay else cfg["shards"]
-    envs = [dict(VERIF_OUT=os.path.join(V.scratch(), "trace%d.ndjson" % i), VERIF_SCEN=scen_path, VERIF_SEED=seed,
-                 VERIF_NRAND=nrand, VERIF_SHARD=i, VERIF_NSHARD=nsh, VERIF_NOTRAPS="1" if replay else "") for i in range(nsh)]
-    stats, dt = V.go_drive(binary, envs)
-    acts = collections.Counter()
-    for s in stats:
-        acts.update(s["acts"])
-    V.log("S3: %d steps executed on the real contract (%.0fs)" % (sum(s["lines"] for s in stats), dt))
-    # ---- S4 (one monitor run per shard, sequentially: each is a single linear behaviour)
-    flags_all, trace_all, nlines = [], [], 0
-    import concurrent.futures as cf
-    def mon(i):
-        p = os.path.join(V.scratch(), "trace%d.ndjson" % i)
-        tr = V.read_trace(p)
-        if not tr:
-            return [], tr
-        fl, done, dt = V.tlc_monitor("BalanceTrace.tla", "BalanceTrace.cfg", p)
-        if done != len(tr):
-            raise V.Inconclusive("S4: monitor consumed %s of %d lines of shard %d" % (done, len(tr), i))
-        return fl, tr
-    with cf.ThreadPoolExecutor(max_workers=min(nsh, 8)) as ex:
-        results = list(ex.map(mon, range(nsh)))
-    scen_of = {}
-    for fl, tr in results:
-        base = len(trace_all)
-        for f in fl:
-            f["line"] += base
-        flags_all += fl
-        trace_all += tr
-    by_trace = collections.defaultdict(list)
-    for r in trace_all:
-        by_trace[str(r["t"])].append(r)
-    def scenario_of(tid):
-        rs = by_trace[str(tid)]
-        return dict(n=rs[0]["n"], scale=rs[0]["scale"], src=rs[0].get("src", ""),
-                    steps=[{k: r[k] for k in ("act", "S", "a", "b", "amt", "x")} for r in rs[1:]])
-    # vacuity guards
-    halts = sum(v for k, v in acts.items() if k.endswith("|HALT") and not k.startswith("reset"))
-    total = sum(v for k, v in acts.items() if not k.startswith("reset"))
-    if replay is None and (total == 0 or halts * 5 < total):
-        raise V.Inconclusive("too few successful steps (%d of %d): the harness is not exercising the contract" % (halts, total))
-    violations, known_seen, drift = V.decide(pid, flags_all, trace_all, known, seed, scenario_of)
-    # ---- evidence
-    distinct = set()
-    prev = None
-    for r in trace_all:
-        if r["act"] == "reset":
-            prev = r
-            continue
-        k = nontrivial_key(r, prev)
-        if k:
-            distinct.add(k)
-        prev = r
-    samples = []
-    for tid in list(by_trace)[:2]:
-        samples.append(dict(trace=tid, n=by_trace[tid][0]["n"], scale=by_trace[tid][0]["scale"], src=by_trace[tid][0].get("src"),
-                            steps=[V.compact_step(r) for r in by_trace[tid][1:13]]))
-    cov = dict(states=mc["states"] if mc else 1, transitions=mc["transitions"] if mc else 1,
-               traces_validated_against_impl=len(by_trace), evaluations=len(trace_all) - len(by_trace),
-               distinct_nontrivial=len(distinct),
-               rule="one evaluation = one transaction executed on the real Balance contract and judged by the TLA+ monitor; "
-                    "distinct_nontrivial counts distinct (action,outcome,return,signer class,amount class,address kinds,#notifications,state changed) "
-                    "tuples among steps that changed state or were refused for a reason other than a missing Alphabet witness",
-               samples=samples, exhaustive=False,
-               s1=mc, actions=dict(acts), drift_steps=drift,
-               known_findings_seen=sorted(known_seen), tlc_scenarios=len(scs), random_scenarios=nrand,
-               committee_sizes=sorted(set(r["n"] for r in trace_all if r["act"] == "reset")),
-               scales=sorted(set(r["scale"] for r in trace_all if r["act"] == "reset")),
-               monitor_flags_total=len([f for f in flags_all if f["prop"] == pid]))
-    if replay is None:
-        V.write_evidence(pid, tier, seed, LEVEL, cov, time.time() - t0, len(violations), ASSUME)
-    return 1 if violations else 0
+    return V.run_family(Balance(), pid, tier, seed, replay)
